@@ -426,7 +426,20 @@ class World:
                         self.ctx.probe("nested_queue_in_waiting_handler")
                     self.post_event(c[1], c[2], c[3], on_done=lambda: self.clear_token(tok, "nested"))
             self.run_acts(spec["acts"], inst, queue, kwargs)
+            return self._queue_ret(spec, inst)
         return handler
+
+    def _queue_ret(self, spec, inst):
+        """Return value of a queue-event handler: per the statement it has no effect on the dispatch."""
+        if "ret" not in spec:
+            return None
+        ret = spec["ret"]
+        if ret is False:
+            self.ctx.probe("queue_handler_returns_false")
+        else:
+            self.ctx.probe("queue_handler_returns_value")
+        self.log("ret", inst.name, inst.iid, spec["hid"], repr(ret))
+        return dict(ret) if isinstance(ret, dict) else ret
 
     def _mk_coro_handler(self, spec):
         hid = spec["hid"]
@@ -462,6 +475,7 @@ class World:
                 raise
             finally:
                 self.wait_end(inst, wid)
+            return self._queue_ret(spec, inst)
 
         def starter(**kwargs):
             # called synchronously by EventManager._async_handler_coroutine (after it registered the wait)
@@ -506,6 +520,8 @@ class World:
                                    % (hid, inst, kwargs, inst.kw, expected))
             self.run_acts(spec["acts"], inst)
             ret = spec["ret"]
+            if ret is False:
+                self.ctx.probe("relay_handler_returns_false")
             if isinstance(ret, dict):
                 inst.cur.update(ret)
                 return dict(ret)
